@@ -41,6 +41,9 @@ func plainASCII(b []byte) bool {
 var reOffset = regexp.MustCompile(`^json: offset \d+: `)
 var reData = regexp.MustCompile("(0x[0-9a-f]+|'.*'|\".*\"|[0-9]+)")
 
+var reList = regexp.MustCompile(`\[[^\]]*\]?`)
+var reMember = regexp.MustCompile(`member \S+ \([^)]*\)`)
+
 func sigOf(prefix, msg string) string {
 	// strip offsets / quoted data so that the same structural reason gives the same signature
 	msg = reOffset.ReplaceAllString(msg, "")
@@ -48,6 +51,8 @@ func sigOf(prefix, msg string) string {
 		msg = msg[:i]
 	}
 	msg = reData.ReplaceAllString(msg, "_")
+	msg = reList.ReplaceAllString(msg, "[_]")
+	msg = reMember.ReplaceAllString(msg, "member _ (_)")
 	if len(msg) > 80 {
 		msg = msg[:80]
 	}
